@@ -4,6 +4,7 @@
   way.  Property theorems only; lemmas in `Proofs/IndexAll.lean`, `Proofs/OciIndexAll.lean`.
 -/
 import OrasModel.Proofs.OciIndexAll
+import OrasModel.Proofs.Stores
 namespace Oras.Props.C07
 open Oras Oras.OciSt Oras.GMem
 
@@ -73,5 +74,75 @@ example :
   refine (c07_reopen_exact c st (fun n => n) hrk 10 (by intro e he; simp [st] at he; subst he; decide) 0 2).2
     (by rfl) (by simp [st]) (by simp [c]) ⟨(3, some 7, 0), by simp [st], ?_⟩
   exact ReachOf.step ReachOf.refl (ss := [2]) (by simp [succOf, c, st]) (by simp)
+
+/-! ### File store: `ForceCAS` -/
+
+open FileSt in
+theorem pushNamed_graph (c : StoreCfg) (re : Bool) (st : FileSt) (n : Node) (nm : Nat) (good : Bool) :
+    (pushNamed c re st n nm good).1.graph = st.graph := by
+  unfold pushNamed
+  split
+  · rfl
+  · simp only
+    cases re <;> cases good <;> rfl
+
+open FileSt in
+theorem restore_graph (c : StoreCfg) (st : FileSt) (m : Node) : (restore c st m).graph = st.graph := by
+  unfold restore
+  generalize c.succD m = l
+  induction l generalizing st with
+  | nil => rfl
+  | cons d ds ih =>
+    simp only [List.foldl_cons]
+    rw [ih]
+    cases d.name with
+    | none => rfl
+    | some nm =>
+      simp only
+      split
+      · rfl
+      · split
+        · split
+          · exact pushNamed_graph c false st d.node nm true
+          · rfl
+        · rfl
+
+open FileSt in
+/-- **`ForceCAS` does not touch the predecessor index**: a push into a file store records the
+    same graph — hence answers `Predecessors` identically afterwards — whether duplicate
+    restoration is switched off (`ForceCAS = true`) or not. -/
+theorem c07_forcecas_same_graph (c : StoreCfg) (re : Bool) (st : FileSt) (d : SDesc) (good : Bool) :
+    (FileSt.push c re st d good true).1.graph = (FileSt.push c re st d good false).1.graph ∧
+    (FileSt.push c re st d good true).2 = (FileSt.push c re st d good false).2 := by
+  unfold FileSt.push
+  cases hname : d.name with
+  | none =>
+    simp only
+    by_cases hf : d.node ∈ st.fallback
+    · simp [hf]
+    · cases good with
+      | false => simp [hf]
+      | true =>
+        simp only [hf, if_false, Bool.not_true, Bool.false_eq_true, Bool.not_false, Bool.and_true, Bool.and_false]
+        by_cases hm : c.isMan d.node = true
+        · simp only [hm, if_true, Bool.false_eq_true, if_false]
+          refine ⟨?_, trivial⟩
+          show GMem.index _ _ _ = GMem.index (restore c _ d.node).graph _ _
+          rw [restore_graph]
+        · simp [hm]
+  | some nm =>
+    simp only
+    cases hr : pushNamed c re st d.node nm good with
+    | mk s r =>
+      cases r with
+      | error e => simp
+      | ok u =>
+        simp only [Bool.not_true, Bool.and_false, Bool.false_eq_true, if_false, Bool.not_false, Bool.and_true]
+        by_cases hm : c.isMan d.node = true
+        · simp only [hm, if_true]
+          refine ⟨?_, trivial⟩
+          show GMem.index _ _ _ = GMem.index (restore c s d.node).graph _ _
+          rw [restore_graph]
+        · simp [hm]
 
 end Oras.Props.C07
